@@ -17,7 +17,7 @@ EXPLANATION = (
 )
 BOUNDS = {
     "quick": dict(m="5, 10", orientation="ascending", instants="ms resolution 1900-2200", spans="1 ms .. 250 years in 19 windows"),
-    "thorough": dict(m="2, 3, 5, 7, 10, 12", orientation="both"),
+    "thorough": dict(m="2, 3, 5, 7, 10, 12", orientation="both", end_points="8 anchors x symbolic span per window (fully symbolic end points were measured at > 90 CPU-minutes for m = 10 and are not registered)"),
 }
 OUTSIDE = ["m > 12 (counts up to 50 in the statement)", "decision bound 20000 per path"]
 ASSUMPTIONS = ["datetime/timedelta modelled by vlib.symdt (self-checked against datetime on every run)", "floats as exact reals; 10**-k decimal", "floor(log10 x) contract"]
